@@ -174,6 +174,7 @@ func runProperty(eng *Engine, verifDir, prop, tier string, updateLedger, verbose
 		return false
 	}
 	dischargeAll(fvs, sel, timeout, all, runtime.NumCPU())
+	retryInconclusive(fvs, sel, timeout)
 
 	for _, fv := range fvs {
 		if fv.vacuous {
@@ -595,4 +596,111 @@ func otherKnown(known []KnownFinding, prop, name string) bool {
 		}
 	}
 	return false
+}
+
+// retryInconclusive: a timeout is not a refutation. Obligations that ended without a definite answer
+// (timeout / unknown, and the instances skipped because a sibling had timed out) are run once more, a
+// few at a time and with four times the budget, so that a loaded machine does not turn a provable
+// obligation into an alarm. Definite answers (sat, error, disagree) are left alone.
+func retryInconclusive(fvs []*FV, sel func(*Obligation) bool, timeout time.Duration) {
+	type job struct {
+		fv *FV
+		o  *Obligation
+	}
+	definite := map[string]bool{}
+	for _, fv := range fvs {
+		for _, o := range fv.obls {
+			if sel(o) && (o.Status == "sat" || o.Status == "error" || o.Status == "disagree") {
+				definite[o.Name] = true
+			}
+		}
+	}
+	var jobs []job
+	perName := map[string]int{}
+	for _, fv := range fvs {
+		if len(fv.outside) > 0 {
+			continue
+		}
+		for _, o := range fv.obls {
+			if !sel(o) || o.Solver == "syntactic" || definite[o.Name] {
+				continue
+			}
+			if o.Status == "timeout" || o.Status == "unknown" {
+				// at most two instances per obligation name: if they stay inconclusive the name does
+				if perName[o.Name] < 2 {
+					perName[o.Name]++
+					jobs = append(jobs, job{fv, o})
+				}
+			}
+		}
+	}
+	if len(jobs) == 0 || len(jobs) > 600 {
+		return
+	}
+	workers := runtime.NumCPU() / 4
+	if workers < 2 {
+		workers = 2
+	}
+	ch := make(chan job)
+	done := make(chan bool)
+	for w := 0; w < workers; w++ {
+		go func() {
+			for j := range ch {
+				j.o.Status, j.o.Solver, j.o.Candidate = "", "", false
+				j.fv.discharge(j.o, 4*timeout, false)
+				j.o.Solver += "(retry)"
+			}
+			done <- true
+		}()
+	}
+	for _, j := range jobs {
+		ch <- j
+	}
+	close(ch)
+	for w := 0; w < workers; w++ {
+		<-done
+	}
+	// names whose retried instances are now all discharged: their skipped siblings were never run
+	bad := map[string]bool{}
+	retried := map[string]bool{}
+	for _, j := range jobs {
+		retried[j.o.Name] = true
+		if j.o.Status != "unsat" {
+			bad[j.o.Name] = true
+		}
+	}
+	var rest []job
+	for _, fv := range fvs {
+		for _, o := range fv.obls {
+			if sel(o) && retried[o.Name] && !bad[o.Name] && (o.Status == "skipped" || o.Status == "timeout" || o.Status == "unknown") {
+				rest = append(rest, job{fv, o})
+			}
+		}
+	}
+	if len(rest) == 0 {
+		return
+	}
+	ch2 := make(chan job)
+	done2 := make(chan bool)
+	w2 := runtime.NumCPU() / 2
+	if w2 < 2 {
+		w2 = 2
+	}
+	for w := 0; w < w2; w++ {
+		go func() {
+			for j := range ch2 {
+				j.o.Status, j.o.Solver, j.o.Candidate = "", "", false
+				j.fv.discharge(j.o, 2*timeout, false)
+				j.o.Solver += "(retry)"
+			}
+			done2 <- true
+		}()
+	}
+	for _, j := range rest {
+		ch2 <- j
+	}
+	close(ch2)
+	for w := 0; w < w2; w++ {
+		<-done2
+	}
 }
